@@ -5,7 +5,9 @@ Domain (one case = one fresh session):
           recv_exit_status / exec_command / invoke_subsystem / open_session / auth_password /
           auth_publickey / global_request(wait=True) / renegotiate_keys / start_client blocked
           before the banner or in the middle of key exchange / accept(None) / accept(5) / two
-          concurrent accept(None); plus the documented event forms auth_password(event=) and
+          concurrent accept(None) - each accept form on a server transport and ("...@client") on a
+          client transport, where accept() is the documented pick-up point for forwarded / x11 / agent
+          channels; plus the documented event forms auth_password(event=) and
           start_client(event=) where the caller waits on the event)
   state   for the calls named "<call>@rekey...": a key re-exchange is in flight when the connection is
           lost - started by the tested side (renegotiate_keys() in a thread, which is itself a blocked
@@ -28,7 +30,9 @@ Domain (one case = one fresh session):
           (tested Transport.close() from another thread), disconnect (peer sends DISCONNECT),
           garbage (puppet sends a packet with a corrupted MAC / a message for an unknown channel /
           a bad banner / an out-of-order kex packet), proxy-exit (relay child ends because its far
-          end went away), proxy-kill (relay child SIGKILLed)
+          end went away), proxy-kill (relay child SIGKILLed), proxy-stdout-eof (the stream paramiko reads
+          from reaches end of file while the command is still running: the relay child closes its stdout -
+          flavor // 2 % 2 == 1: and its stdin - when its far end goes away, then lingers)
   via     link (tested transport directly on the in-memory net.Link) or proxy (client transport on
           a real paramiko.ProxyCommand whose child relays stdin/stdout to an AF_UNIX socket that the
           harness pumps into the same net.Link)
@@ -43,6 +47,7 @@ only if the same clause fails in 3 consecutive runs; the stacks of the stuck thr
 (sys._current_frames) go into the replay detail. Any return value / exception type is accepted.
 """
 import errno
+import heapq
 import itertools
 import os
 import signal
@@ -64,9 +69,11 @@ RULE = (
     "so the sending calls are parked in Transport._send_user_message and the starting renegotiate_keys() is one more blocked call); the channel-level calls "
     "additionally x channel pre-state {none, shutdown_read, shutdown_write, shutdown(2), peer EOF received, set_combine_stderr} (quick: every channel call x pre-state "
     "once in call-first order with a rotating loss, drawn in the other moments; thorough: x every loss x moment) (quick: every applicable call x loss pair "
-    "once in call-first order over the link, every client call over a real ProxyCommand child for the proxy losses, plus "
+    "once in call-first order over the link, every client call over a real ProxyCommand child for 'child gone' (exit / SIGKILL alternating per call), "
+    "'stdout EOF while the child lingers' and one loss that reaches the transport another way, plus "
     "drawn loss-first/together cases; thorough: full product x 3 moments x repetitions, sharded), errno / garbage flavour / "
-    "skew drawn by hypothesis; cases run 6-8 at a time in threads (own Link/transports each); non-trivial = the caller thread "
+    "skew drawn by hypothesis; the accept forms run on a server transport and on a client transport (accept is the pick-up point of forwarded channels there); "
+    "the proxy losses are child exit, child SIGKILL and end-of-file on the child's stdout while the child lingers; cases run 6-8 at a time in threads (own Link/transports each); non-trivial = the caller thread "
     "was observed (sys._current_frames, two samples) inside the expected paramiko wait with its request seen by the mute peer (or the held kex packet seen on the link) "
     "when the loss was triggered, or the call was issued after the loss; distinct by (call, pre-state, loss, moment, timeout, via, flavour, skew); "
     "a timeout counts only after 3 consecutive failing runs"
@@ -234,6 +241,11 @@ CALLS = {
     "accept-none": Spec("server", c_accept_none, ("transport.py", "accept")),
     "accept-5": Spec("server", c_accept_5, ("transport.py", "accept")),
     "accept2": Spec("server", c_accept_none, ("transport.py", "accept"), callers=2, moments=CF),
+    # -- accept() on a CLIENT transport: where channels of request_port_forward() without a handler, x11 and agent
+    #    forwarding are picked up
+    "accept-none@client": Spec("client", c_accept_none, ("transport.py", "accept")),
+    "accept-5@client": Spec("client", c_accept_5, ("transport.py", "accept")),
+    "accept2@client": Spec("client", c_accept_none, ("transport.py", "accept"), callers=2, moments=CF),
     # -- a key re-exchange is in flight when the connection is lost (the inbound link direction is held)
     "send@rekey": Spec("client", c_send, SUM, chan=True, mute="hold", timeouts=T5, ready=_kex_held, rekey="before"),
     "sendall@rekey": Spec("client", c_sendall, SUM, chan=True, mute="hold", timeouts=T5, ready=_kex_held, rekey="before"),
@@ -247,7 +259,7 @@ CALLS = {
 }
 
 LINK_LOSSES = ("peer-close", "link-eof", "link-error", "local-close", "disconnect", "garbage")
-PROXY_LOSSES = ("proxy-exit", "proxy-kill")
+PROXY_LOSSES = ("proxy-exit", "proxy-kill", "proxy-stdout-eof")
 MOMENTS = ("call-first", "loss-first", "together")
 # errno values a dead connection reports. Not in the domain: EAGAIN (documented by Packetizer.read_all as "no data
 # yet") and ETIMEDOUT: OSError(ETIMEDOUT) *is* TimeoutError == socket.timeout since Python 3.10, i.e. the idle-poll
@@ -330,7 +342,7 @@ def base_call(case):
 def exclusion(case, fam):
     """Key under which the case is excluded by construction, or None."""
     call = base_call(case)
-    if fam["D9"] and case["via"] == "proxy" and case["loss"] in ("proxy-exit", "proxy-kill", "peer-close", "link-eof", "link-error"):
+    if fam["D9"] and case["via"] == "proxy" and case["loss"] in PROXY_LOSSES + ("peer-close", "link-eof", "link-error"):
         return "D9:proxy-child-eof-not-noticed"
     if fam["D10b"] and case["loss"] == "local-close" and call in WAKEUP_WAITERS:
         return "D10b:waiter-not-woken-after-local-close"
@@ -349,6 +361,7 @@ def skip_reissue(case, fam):
 
 RELAY = r"""
 import os, select, socket, sys
+mode = sys.argv[2] if len(sys.argv) > 2 else "exit"
 s = socket.socket(socket.AF_UNIX, socket.SOCK_STREAM)
 s.connect(sys.argv[1])
 try:
@@ -368,6 +381,16 @@ try:
                 d = d[n:]
 except (OSError, KeyboardInterrupt):
     pass
+if mode != "exit":
+    # hang up but stay around: the reader of our stdout sees end of file while this process is still running
+    try:
+        os.close(1)
+        if mode == "linger-both":
+            os.close(0)
+    except OSError:
+        pass
+    import time
+    time.sleep(120)
 os._exit(0)
 """
 
@@ -388,7 +411,7 @@ def relay_script(tmpdir):
 class Bridge:
     """paramiko.ProxyCommand(child relay) <-> AF_UNIX socket <-> pump threads <-> link.a"""
 
-    def __init__(self, tmpdir, link):
+    def __init__(self, tmpdir, link, mode="exit"):
         import paramiko
 
         self.link = link
@@ -399,7 +422,7 @@ class Bridge:
         self.lsock.settimeout(SETUP_T)
         self.conn = None
         self.threads = []
-        self.proxy = paramiko.ProxyCommand("%s -I -S %s %s" % (sys.executable, relay_script(tmpdir), self.path))
+        self.proxy = paramiko.ProxyCommand("%s -I -S %s %s %s" % (sys.executable, relay_script(tmpdir), self.path, mode))
         self.proc = self.proxy.process
         try:
             self.conn, _ = self.lsock.accept()
@@ -516,7 +539,10 @@ class Env:
         link = self.link = net.Link()
         csock = link.a
         if self.case["via"] == "proxy":
-            self.bridge = Bridge(self.tmpdir, link)
+            mode = "exit"
+            if self.case["loss"] == "proxy-stdout-eof":
+                mode = "linger-both" if self.case["flavor"] // 2 % 2 == 1 else "linger"
+            self.bridge = Bridge(self.tmpdir, link, mode)
             csock = self.bridge.proxy
         if sp.role == "client":
             tc = (peers.VServiceTransport if sp.service else peers.VTransport)(csock)
@@ -694,7 +720,8 @@ class Env:
                 self.rx.set_hold(False)
         elif loss == "garbage":
             self._garbage(flavor, held)
-        elif loss == "proxy-exit":
+        elif loss in ("proxy-exit", "proxy-stdout-eof"):
+            # the relay's far end goes away: it exits, or (started in a linger mode) closes its stdout and stays
             self.bridge.drop_conn()
         elif loss == "proxy-kill":
             self.bridge.kill_child()
@@ -1001,11 +1028,12 @@ class Pool:
         for th in self.threads:
             th.start()
 
-    def submit(self, case):
+    def submit(self, case, prio=0):
+        """prio: cases are started in (prio, submission) order; results stay in submission order."""
         with self.cv:
             slot = [case, None]
             self.results.append(slot)
-            self.queue.append(slot)
+            heapq.heappush(self.queue, (prio, len(self.results), slot))
             self.cv.notify()
 
     def _work(self):
@@ -1015,7 +1043,7 @@ class Pool:
                     self.cv.wait()
                 if not self.queue:
                     return
-                slot = self.queue.pop(0)
+                slot = heapq.heappop(self.queue)[2]
                 if self.errors or self.ctx.out_of_time():
                     self.skipped += 1
                     continue
@@ -1043,12 +1071,15 @@ def worklist(ctx):
     items = []
     if ctx.quick:
         rot = 0
+        nclient = 0
         for call in CALLS:
             for loss in LINK_LOSSES:
                 items.append((call, loss, "call-first", "draw", "link", "none"))
             if CALLS[call].role == "client":
-                # over a real ProxyCommand child: both proxy losses, plus one loss that reaches the transport some other way
-                for loss in PROXY_LOSSES + (("local-close", "garbage", "disconnect")[len(items) % 3],):
+                # over a real ProxyCommand child: the child goes away (exits / is SIGKILLed, alternating per call), the
+                # child's stdout reaches EOF while it lingers, plus one loss that reaches the transport some other way
+                nclient += 1
+                for loss in (PROXY_LOSSES[nclient % 2], "proxy-stdout-eof", ("local-close", "garbage", "disconnect")[len(items) % 3]):
                     items.append((call, loss, "call-first", "draw", "proxy", "none"))
             if CALLS[call].chan:
                 # every channel pre-state once per call, the loss rotating through the link losses
@@ -1089,6 +1120,7 @@ def run(ctx):
     state = {"done": 0}
 
     draw = st.tuples(st.booleans(), st.integers(0, 63), st.integers(-100, 100))
+    nth = {}
 
     def submit(chosen):
         for (call, loss, moment, t, via, pre), (use_t, flavor, skew) in chosen:
@@ -1104,7 +1136,11 @@ def run(ctx):
             if key:
                 ctx.exclude(key)
                 continue
-            pool.submit(case)
+            # quick: start the k-th case of every call before the (k+1)-th of any (the hypothesis bodies only submit, so
+            # the whole worklist is queued within milliseconds): when a defect makes cases slow (3 x BOUND each) and the
+            # budget cuts the run short, every call has still had its first losses instead of the late calls having none
+            k = nth[call] = nth.get(call, -1) + 1
+            pool.submit(case, (0 if call.startswith("accept-5") else 1, k) if ctx.quick else 0)
 
     # hypothesis always starts with the all-minimal example: it is skipped (the bodies only submit work, so
     # that costs nothing), otherwise a whole chunk would carry identical drawn parameters
